@@ -41,7 +41,7 @@ def sumShares (st : OState) : Rat := sumOver st.affs (fun a => (st.books a).shar
 def sumAcb (st : OState) : Rat := sumOver st.affs (fun a => ((st.books a).acb).getD 0)
 
 /-- Returns the list of failed oracles as (property, message). -/
-partial def oracleRows (initAcb : Rat) (c3 : Bool) (i : Nat) (st : OState) :
+partial def oracleRows (initAcb : Rat) (c3 : Bool) (complete : Bool) (i : Nat) (st : OState) :
     List (Tx × ImplDelta) → List (String × String)
   | [] => []
   | (t, x) :: rest =>
@@ -77,9 +77,11 @@ partial def oracleRows (initAcb : Rat) (c3 : Bool) (i : Nat) (st : OState) :
       | _ => st'
     let st' := { st' with gains := st'.gains + x.gain.getD 0,
                           overSeen := st'.overSeen || (match x.sfl with | some s => s.over | none => false) }
+    -- a row boundary "with its automatic adjustments applied": the next row is an input row, or
+    -- the ledger completed (a failed run may stop in the middle of the adjustments)
     let boundary := match rest with
       | (_, y) :: _ => !y.gen
-      | [] => true
+      | [] => complete
     let e3 : List (String × String) :=
       if c3 && boundary && !st'.overSeen then
         let rhs := st'.proceeds - st'.costs - initAcb + st'.roc + sumAcb st'
@@ -87,9 +89,10 @@ partial def oracleRows (initAcb : Rat) (c3 : Bool) (i : Nat) (st : OState) :
         else [("C03", s!"after row {i}: gains so far {ratToString st'.gains} ≠ proceeds−costs+roc+held cost base {ratToString rhs}")]
       else []
     let errs := e1 ++ e4 ++ e3
-    if errs.isEmpty then oracleRows initAcb c3 (i + 1) st' rest else errs
+    if errs.isEmpty then oracleRows initAcb c3 complete (i + 1) st' rest else errs
 
-def ledgerOracles (dflt : Aff) (init : Option Status) (txs : List Tx) (impls : List ImplDelta) :
+def ledgerOracles (dflt : Aff) (init : Option Status) (txs : List Tx) (impls : List ImplDelta)
+    (complete : Bool := true) :
     List (String × String) :=
   match alignRows txs impls with
   | none => [("C01", "implementation rows cannot be aligned with the input rows")]
@@ -97,6 +100,6 @@ def ledgerOracles (dflt : Aff) (init : Option Status) (txs : List Tx) (impls : L
     let c3 := txs.all (fun t => !t.aff.registered &&
       (match t.act with | .sell _ _ _ _ _ (some _) => false | .sfla .. => false | _ => true))
     let initAcb := match init with | some s => s.acb.getD 0 | none => 0
-    oracleRows initAcb c3 0 { books := Spec.Books.init dflt init, affs := [dflt] } rows
+    oracleRows initAcb c3 complete 0 { books := Spec.Books.init dflt init, affs := [dflt] } rows
 
 end Driver
